@@ -126,6 +126,7 @@ def one(args):
         if want_crash:
             res["_writes"] = writes
             res["_img0"] = img0
+            res["fs_end"] = sb0["blocks"] * sb0["bs"]
     else:
         res["events"] = []
         res["n_out"] = 0; res["n_fsync"] = 0
@@ -178,9 +179,17 @@ def crash_images(b, r, work, rng, maxn=6):
                     if len(img) < off + len(data):
                         img.extend(b"\0" * (off + len(data) - len(img)))
                     img[off:off + len(data)] = data
-            modified = bytes(img[:SB_LO]) != img0[:SB_LO] or bytes(img[SB_HI:len(img0)]) != img0[SB_HI:] or len(img) > len(img0) and any(img[len(img0):])
+            # same classification rule as the trace events: bytes beyond the end of the filesystem the on-disk superblock
+            # describes are not part of it (resize2fs main.c writes one byte "0" at the new end to extend an image file
+            # before anything else; the superblock still says the old size, so that byte is invisible to every reader)
+            fs_end = min(len(img0), r.get("fs_end", len(img0)))
+            modified = bytes(img[:SB_LO]) != img0[:SB_LO] or bytes(img[SB_HI:fs_end]) != img0[SB_HI:fs_end]
             flag = struct.unpack_from("<H", img, STATE_OFF)[0] & 2
-            complete = (cut == nw)
+            # the run is complete, as far as anything outside the superblock goes, once every write classified "out" has been
+            # applied: what may still be missing then are superblock-internal words (the library writes the superblock word by
+            # word), and the flag is legitimately off again
+            out_idx = [e["wi"] for e in evs if e["e"] == "w" and e["k"] == "out"]
+            complete = (cut == nw) or all(i < durable_upto or i in keep for i in out_idx)
             if modified and not flag and not complete:
                 # candidate violation at byte level; confirm that the real e2fsck -p would skip the check
                 p = os.path.join(work, "crash_%d.img" % os.getpid())
